@@ -1279,6 +1279,8 @@ KF_SRC = {
 
 
 KF_SRC.update({
+    # kf-c05-char-not-a-json-string: serde writes a char as a JSON string; Go says rune (a number), Swift Unicode.Scalar (not Codable)
+    'go_char': ('#[typeshare]\npub struct C { pub c: char }\n', 'go', 'go', ['--go-package', 'p'], r'\brune\b', 'Go translates `char` (a JSON string in serde) to `rune`, an integer type that encoding/json reads and writes as a number'),
     # kf-c01-rename-list-form: serde(rename(serialize = .., deserialize = ..)) / rename_all(serialize = ..) are not read
     'rename_list_form': ('#[typeshare]\npub struct P { #[serde(rename(serialize = "pageCount", deserialize = "pageCount"))] pub page_count: u32 }\n', 'typescript', 'ts', [], r'\bpage_count\b',
                          'serde binds `pageCount` (list form of rename, both directions agree), the generated code binds `page_count`'),
